@@ -175,7 +175,11 @@ func (r *envelopeReader) Unmarshal(message any) *Error {
 
 func (r *envelopeReader) Read(env *envelope) *Error {
 	prefixes := [5]byte{}
-	prefixBytesRead, err := r.reader.Read(prefixes[:])
+	// A single Read may return fewer than five bytes even though more are on
+	// their way: the transport is free to split the prefix across reads.
+	// io.ReadFull keeps reading; it reports io.EOF only if nothing was read
+	// and io.ErrUnexpectedEOF if the stream ended inside the prefix.
+	prefixBytesRead, err := io.ReadFull(r.reader, prefixes[:])
 
 	switch {
 	case (err == nil || errors.Is(err, io.EOF)) &&
